@@ -11,6 +11,24 @@ class Reject(Exception):
     pass
 
 
+# (class name, {helper name: (FunctionDef, "class" | "module")}) of the file being translated; set by set_helpers
+HELPERS = None
+
+
+def set_helpers(tree, cls=None):
+    """register the private functions of the class (and of the module) as candidates for inlining"""
+    global HELPERS
+    table = {}
+    for n in tree.body:
+        if isinstance(n, ast.FunctionDef) and n.name.startswith("_") and not n.name.startswith("__"):
+            table[n.name] = (n, "module")
+        if cls is not None and isinstance(n, ast.ClassDef) and n.name == cls:
+            for m in n.body:
+                if isinstance(m, ast.FunctionDef) and m.name.startswith("_") and not m.name.startswith("__"):
+                    table[m.name] = (m, "class")
+    HELPERS = (cls, table)
+
+
 def find_function(tree, name, cls=None):
     body = tree.body
     if cls is not None:
@@ -123,6 +141,9 @@ class Tr:
                 fn = {"L": "label_eqb", "SIDE": "side_eqb", "M": "method_eqb"}[a[1]]
                 t = f"({fn} {a[0]} {b[0]})"
                 return (t if op is ast.Eq else f"(negb {t})", "B")
+            if a[1] == "B" and b[1] == "B" and op in (ast.Eq, ast.NotEq):
+                t = f"(Bool.eqb {a[0]} {b[0]})"
+                return (t if op is ast.Eq else f"(negb {t})", "B")
             if a[1] == "Z" and b[1] == "Z":
                 fn = {ast.Eq: "Z.eqb", ast.NotEq: None, ast.Lt: "Z.ltb", ast.LtE: "Z.leb", ast.Gt: "Z.gtb", ast.GtE: "Z.geb"}[op]
                 if fn is None:
@@ -163,7 +184,77 @@ class Tr:
             key = f".{f.attr}"
         if key in self.calls:
             return self.calls[key](self, e)
+        inl = self.inline_helper(key, e)
+        if inl is not None:
+            return inl
         raise Reject(f"call {key} not whitelisted")
+
+    def inline_helper(self, key, e):
+        """A call of a private helper of the same class / module that is not itself one of the translated functions
+        (`self._h(..)`, `Cls._h(..)`, `_h(..)`) is translated by inlining the helper's body with its parameters bound
+        to the (already translated) arguments, all at once, so that extracting or merging helpers does not change the
+        generated term up to let-reduction.  The helper must be straight-line code of the same whitelisted fragment."""
+        if key is None or not HELPERS:
+            return None
+        cls_name, table = HELPERS
+        parts = key.split(".")
+        name = parts[-1]
+        if not name.startswith("_") or name.startswith("__") or name not in table:
+            return None
+        if len(parts) == 2 and parts[0] not in ("self", cls_name):
+            return None
+        if len(parts) == 1 and table[name][1] != "module":
+            return None
+        fn, where = table[name]
+        depth = getattr(self, "inline_depth", 0)
+        if depth >= 3:
+            raise Reject(f"helper {name}: inlining too deep (recursion?)")
+        a = fn.args
+        if a.vararg or a.kwarg or a.kwonlyargs or a.posonlyargs or a.defaults:
+            raise Reject(f"helper {name}: only plain positional parameters without defaults are inlined")
+        static = any(ast.unparse(d) == "staticmethod" for d in fn.decorator_list)
+        if any(ast.unparse(d) not in ("staticmethod",) for d in fn.decorator_list):
+            raise Reject(f"helper {name}: decorator")
+        params = [x.arg for x in a.args]
+        if where == "class" and not static:
+            if not params or params[0] != "self" or len(parts) != 2 or parts[0] != "self":
+                raise Reject(f"helper {name}: method call shape")
+            params = params[1:]
+        vals = {}
+        if len(e.args) > len(params):
+            raise Reject(f"helper {name}: too many arguments")
+        for p_, arg in zip(params, e.args):
+            vals[p_] = self.expr(arg)
+        for kw in e.keywords:
+            if kw.arg is None or kw.arg not in params or kw.arg in vals:
+                raise Reject(f"helper {name}: keyword {kw.arg}")
+            vals[kw.arg] = self.expr(kw.value)
+        if set(vals) != set(params):
+            raise Reject(f"helper {name}: missing arguments")
+        import copy
+        sub = copy.copy(self)
+        sub.inline_depth = depth + 1
+        sub.cells = {}
+        sub.env = {p_: (f"{p_}", vals[p_][1]) for p_ in params}
+        got = {}
+
+        def capture(tr_, v):
+            got.setdefault("ty", v[1])
+            if got["ty"] != v[1]:
+                raise Reject(f"helper {name}: return types differ")
+            return v[0]
+
+        sub.ret_wrap = capture
+        body = sub.block(strip_doc(fn.body))
+        if "ty" not in got:
+            raise Reject(f"helper {name}: no return value")
+        if not params:
+            return (f"({body})", got["ty"])
+        if len(params) == 1:
+            return (f"(let {params[0]} := {vals[params[0]][0]} in {body})", got["ty"])
+        pat = "'(" + ", ".join(params) + ")"
+        tup = "(" + ", ".join(vals[p_][0] for p_ in params) + ")"
+        return (f"(let {pat} := {tup} in {body})", got["ty"])
 
     # ---------------------------------------------------------- statements -> continuation text
     def assigned_names(self, stmts):
@@ -254,6 +345,13 @@ class Tr:
                 for x, v in zip(t.elts, vals):
                     self.env[x.id] = (x.id, v[1])
                 return outs
+            if isinstance(t, ast.Tuple) and all(isinstance(x, ast.Name) for x in t.elts) and isinstance(s.value, ast.Call):
+                v = self.expr(s.value)     # a call returning a tuple (an inlined helper): destructuring let
+                if isinstance(v[1], tuple) and v[1][0] == "T" and len(v[1][1]) == len(t.elts):
+                    for x, ty in zip(t.elts, v[1][1]):
+                        self.env[x.id] = (x.id, ty)
+                    return [("'(" + ", ".join(x.id for x in t.elts) + ")", v[0])]
+                raise Reject("tuple assignment from a call that does not return a tuple of that length")
         if isinstance(s, ast.AugAssign) and isinstance(s.target, ast.Name) and isinstance(s.op, (ast.Add, ast.Sub)):
             cur = self.expr(s.target)
             v = self.expr(ast.BinOp(left=s.target, op=s.op, right=s.value))
